@@ -13,6 +13,6 @@ if ! git -C $WT apply $SRC/patch.diff; then echo "PATCH DOES NOT APPLY"; git -C 
 cd /verif && VERIF_REPO=$WT ./check $ID $TIER 2>&1 | grep -E "^VIOLATION|signature:|^KNOWN|^INCONCL|^property=|BUILD" | cut -c1-260
 RC=${PIPESTATUS[0]}
 git -C /repo worktree remove --force $WT
-rm -rf /verif/.build/alt-*/$ID/run
+rm -rf /verif/.build/alt-$(printf %s "$WT" | sha1sum | cut -c1-8)
 echo "seedcheck $NAME vs $ID: rc=$RC"
 exit $RC
